@@ -32,8 +32,13 @@ def find_function(tree: ast.AST, qualname: str):
             if isinstance(ch, (ast.FunctionDef, ast.AsyncFunctionDef, ast.ClassDef)) and ch.name == p:
                 if node is tree and not _is_toplevel(tree, ch):
                     continue
-                found = ch
-                break
+                decos = [d.attr if isinstance(d, ast.Attribute) else getattr(d, "id", "") for d in getattr(ch, "decorator_list", [])]
+                if found is not None and any(d in ("setter", "deleter") for d in decos):
+                    continue  # a property's setter / deleter shares the getter's name: the contract is about the getter
+                if "overload" in decos:
+                    found = found or ch
+                    continue
+                found = ch  # no break: the LAST real definition of a name is the one Python binds (@overload stubs come first)
         if found is None and not isinstance(node, ast.Module):
             # nested function inside a function body (e.g. DAG.compose._add_missing_deps)
             for ch in ast.walk(node):
